@@ -94,6 +94,9 @@ def gen_spec(seed, index, tier):
                 generations=1, pairs=sorted(rng.sample(["FORCE_SETS", "FORCE_CONSTANTS", "hdf5", "BORN", "convert"], rng.randint(0, 3))), faulty=faulty)
     # history inside the writer process: earlier saves of the same object with other settings (a process-global default
     # mutated by one call must not leak into the next)
+    # documented fall-back order when the saved file carries neither forces nor force constants:
+    # FORCE_CONSTANTS (5) > force_constants.hdf5 (6) > FORCE_SETS (7), each from a differently scaled model
+    spec["fallback"] = sorted(rng.sample(["FORCE_CONSTANTS", "force_constants.hdf5", "FORCE_SETS"], rng.randint(2, 3))) if rng.random() < 0.25 else []
     spec["pre_saves"] = []
     if rng.random() < 0.35:
         for i in range(rng.randint(1, 2)):
@@ -222,8 +225,9 @@ def child_stale(args):
     os.chdir(path)
     w = World(spec["world"])
     obj = dict(spec["obj"], dataset="t1", fc="full", energies=False)
-    ph, fc_full = _build(w, obj, scale=0.5, nac_scale=0.6)
+    scales = spec.get("stale_scales") or {}
     for name in spec["stale"]:
+        ph, fc_full = _build(w, obj, scale=scales.get(name, 0.5), nac_scale=0.6)
         if name == "FORCE_SETS":
             write_FORCE_SETS(ph.dataset)
         elif name == "FORCE_CONSTANTS":
@@ -243,7 +247,7 @@ def child_writer(args):
     os.chdir(path)
     w = World(spec["world"])
     ph, fc_full = _build(w, spec["obj"])
-    out = {"raised": None, "fault_fired": 0}
+    out = {"raised": None, "fault_fired": 0, "fc_model_full": np.array(fc_full)}
     sv = spec["save"]
     for ps in spec.get("pre_saves", []):
         ph.save(ps["filename"], settings=ps["settings"], compression=ps["compression"])
@@ -370,7 +374,7 @@ def compare_snaps(ws, rs, dec, saved, obj, read):
         bad.append(("unit_conversion_factor", "%r vs %r" % (ws["factor"], rs["factor"])))
     # dataset
     wd, rdd = ws["dataset"], rs["dataset"]
-    if saved["displacements"] and wd is not None:
+    if (saved["displacements"] or saved["force_sets"]) and wd is not None:
         if rdd is None:
             bad.append(("dataset", "missing after reload"))
         elif wd["type"] != rdd["type"]:
@@ -410,7 +414,7 @@ def compare_snaps(ws, rs, dec, saved, obj, read):
                 bad.append(("nac.method", "%r vs %r" % (ws["nac"]["method"], rs["nac"]["method"])))
     # phonons: only when the reader has (or can produce) force constants and NAC state is the saved one
     nac_complete = ws["nac"] is None or (saved["born_effective_charge"] and saved["dielectric_constant"])
-    fc_available = (saved["force_constants"] and ws["fc"] is not None) or (saved["force_sets"] and saved["displacements"] and wd is not None and wd["type"] == 1 and "forces" in wd)
+    fc_available = (saved["force_constants"] and ws["fc"] is not None) or (saved["force_sets"] and wd is not None and wd["type"] == 1 and "forces" in wd)
     if ws["D"] is not None and nac_complete and fc_available:
         if rs["D"] is None:
             bad.append(("phonons", "reader could not produce phonons"))
@@ -489,7 +493,8 @@ def execute(spec):
         saved = saved_settings(spec, ws)
         # stale files: keep only those that the documented priority list ranks below what the saved file contains
         stale = list(spec["stale"])
-        has_forces_saved = saved["force_sets"] and saved["displacements"] and ws["dataset"] is not None and "forces" in ws["dataset"]
+        # (the dumper writes displacements together with forces when force_sets is on, whatever 'displacements' says)
+        has_forces_saved = saved["force_sets"] and ws["dataset"] is not None and "forces" in ws["dataset"]
         has_fc_saved = saved["force_constants"] and ws["fc"] is not None
         has_nac_saved = ws["nac"] is not None and saved["born_effective_charge"] and saved["dielectric_constant"]
         allowed = []
@@ -510,11 +515,36 @@ def execute(spec):
             for name in allowed:
                 if os.path.exists(os.path.join(path, name)):
                     faults["stale_file:" + name] = 1
-        rout = sub(child_reader, (spec, path, fn, spec["generations"] == 2))
+        fb_expect = None
+        if spec.get("fallback") and not has_fc_saved and not has_forces_saved and not allowed and spec["obj"]["dataset"] != "t2_noforce":
+            FB = {"FORCE_CONSTANTS": 0.5, "force_constants.hdf5": 0.6, "FORCE_SETS": 0.7}
+            for name in ("FORCE_SETS", "FORCE_CONSTANTS", "force_constants.hdf5", "BORN"):
+                if os.path.exists(os.path.join(path, name)):
+                    os.remove(os.path.join(path, name))
+            sub(child_stale, (dict(spec, stale=spec["fallback"], stale_scales=FB), path))
+            for name in ("FORCE_CONSTANTS", "force_constants.hdf5", "FORCE_SETS"):
+                if name in spec["fallback"]:
+                    fb_expect = (name, FB[name])
+                    break
+            faults["fallback_discovery:" + "+".join(spec["fallback"])] = 1
+        rout = sub(child_reader, (spec, path, fn, spec["generations"] == 2 and fb_expect is None))
         if spec["read"]["mode"] == "stream":
             faults["short_read_stream"] = 1
             probes["stream_read_calls"] = rout["stream_reads"]
         rs = rout["snap"]
+        if fb_expect is not None:
+            name, scale = fb_expect
+            want = wout["fc_model_full"] * scale
+            got = rs["fc"]
+            if got is None:
+                V("discovery-order", "fallback:%s:no-force-constants" % name, present=spec["fallback"])
+            else:
+                if got.shape[0] != got.shape[1]:
+                    want = want[ws["p2s_map"]]
+                dd = float(np.max(np.abs(got - want)))
+                if dd > 1e-7 * max(1.0, float(np.max(np.abs(want)))):
+                    V("discovery-order", "fallback:expected-%s" % name, maxdiff=dd, present=spec["fallback"], doc="FORCE_CONSTANTS (5) > force_constants.hdf5 (6) > FORCE_SETS (7)")
+            ws = dict(ws, D=None, dataset=None)  # phonons / forces now come from the discovered files, not from W's state
         stale_present = sorted(n for n in allowed if os.path.exists(os.path.join(path, n)))
         for name, why in compare_snaps(ws, rs, dec, saved, spec["obj"], spec["read"]):
             site = name + ("|stale-files-present" if stale_present else "")
@@ -583,7 +613,7 @@ def _result(spec, violations, faults, probes, log, nontrivial):
     o = spec["obj"]
     if spec.get("pre_saves"):
         faults = dict(faults, earlier_saves_in_same_process=len(spec["pre_saves"]))
-    sig = core.digest([o, spec["save"], spec.get("pre_saves"), spec["stale"], spec["stale_when"], spec["write_fault"] is not None, spec["recompress"], spec["read"], spec["generations"], spec["world"]["crystal"], spec["world"]["nac"]])
+    sig = core.digest([o, spec["save"], spec.get("pre_saves"), spec.get("fallback"), spec["stale"], spec["stale_when"], spec["write_fault"] is not None, spec["recompress"], spec["read"], spec["generations"], spec["world"]["crystal"], spec["world"]["nac"]])
     probes["dataset:%s" % o["dataset"]] = 1
     probes["fc:%s" % o["fc"]] = 1
     if o["ext_symbols"]:
@@ -600,6 +630,8 @@ def _result(spec, violations, faults, probes, log, nontrivial):
 
 
 def shrink_candidates(spec):
+    if spec.get("fallback"):
+        yield dict(spec, fallback=[])
     if spec.get("pre_saves"):
         yield dict(spec, pre_saves=[])
         if len(spec["pre_saves"]) > 1:
